@@ -26,13 +26,16 @@ func runC06(c *engine.Ctx) {
 	add := fn(c, "pkg/util/vhost.Routers.Add")
 	del := fn(c, "pkg/util/vhost.Routers.Del")
 	get := fn(c, "pkg/util/vhost.Routers.Get")
-	exist := fn(c, "pkg/util/vhost.Routers.exist")
+	existObj := p.MethodObj("pkg/util/vhost", "Routers", "exist")
+	var exist *ssa.Function
+	if existObj != nil {
+		exist = p.FuncOf(existObj) // optional: the duplicate test may be made in place in Add
+	}
 	idxF := field(c, "pkg/util/vhost", "Routers", "indexByDomain")
 	locF := field(c, "pkg/util/vhost", "Router", "location")
-	if add == nil || del == nil || get == nil || exist == nil || idxF == nil || locF == nil {
+	if add == nil || del == nil || get == nil || idxF == nil || locF == nil {
 		return
 	}
-	existObj := p.MethodObj("pkg/util/vhost", "Routers", "exist")
 
 	// ---- R1 ----
 	c.Rule("R1", "the comparator passed to the sort in Routers.Add orders by location descending (longest prefix first)")
@@ -210,8 +213,9 @@ func runC06(c *engine.Ctx) {
 			return
 		}
 		n++
-		c.AllPaths(fmt.Sprintf("pkg/util/vhost.Routers.Add>write#%d", n), engine.PathCheck{Fn: add, Sink: engine.Is(mu), Pred: func(st *engine.PathState) string {
-			v, k := st.Truth(extractOf(existObj, 1))
+		dupOf := routerDuplicateVerdict(c, add)
+		c.AllPaths(fmt.Sprintf("pkg/util/vhost.Routers.Add>write#%d", n), engine.PathCheck{Fn: add, Sink: engine.Is(mu), KeepLoopFacts: true, Pred: func(st *engine.PathState) string {
+			v, k := dupOf(st)
 			if !(k && !v) {
 				return "a route is written on a path where the duplicate test did not report 'no such route'"
 			}
@@ -219,18 +223,22 @@ func runC06(c *engine.Ctx) {
 		}}, "index written only for a new (host, location, user) triple")
 	})
 	n++
-	c.AllPaths("pkg/util/vhost.Routers.exist", engine.PathCheck{Fn: exist, Sink: engine.IsReturn, Pred: func(st *engine.PathState) string {
-		r := st.Sink.(*ssa.Return)
-		found, isC := engine.ConstBool(st.Resolve(r.Results[1]))
-		if !isC || !found {
+	if exist == nil {
+		c.Hold("pkg/util/vhost.Routers.Add>in-place-duplicate-test", add.Pos(), 1, nil, "the duplicate test is made in place: location equality inside the (host, user) bucket")
+	} else {
+		c.AllPaths("pkg/util/vhost.Routers.exist", engine.PathCheck{Fn: exist, Sink: engine.IsReturn, Pred: func(st *engine.PathState) string {
+			r := st.Sink.(*ssa.Return)
+			found, isC := engine.ConstBool(st.Resolve(r.Results[1]))
+			if !isC || !found {
+				return ""
+			}
+			eq, k := st.Equal(isParam("path"), loadOfField(locF))
+			if !(k && eq) {
+				return "exist() reports a duplicate without location equality"
+			}
 			return ""
-		}
-		eq, k := st.Equal(isParam("path"), loadOfField(locF))
-		if !(k && eq) {
-			return "exist() reports a duplicate without location equality"
-		}
-		return ""
-	}}, "duplicate ⇔ same location in the same bucket")
+		}}, "duplicate ⇔ same location in the same bucket")
+	}
 	c.Floor(n, 3)
 
 	// ---- R5 ----
@@ -838,6 +846,12 @@ func planOf(f *ssa.Function) (*walkerPlan, string) {
 					}
 					okExit := false
 					if t, isIf := b.Instrs[len(b.Instrs)-1].(*ssa.If); isIf {
+						// "found": the branch on the finder's ok result (whatever is logged or counted before the return)
+						if ex, isEx := t.Cond.(*ssa.Extract); isEx {
+							if cl, isCall := ex.Tuple.(*ssa.Call); isCall && engine.CalleeFn(cl) == pl.finder {
+								okExit = true
+							}
+						}
 						if bo, isBin := t.Cond.(*ssa.BinOp); isBin {
 							if lc, ok := bo.X.(*ssa.Call); ok {
 								if bi, ok := lc.Call.Value.(*ssa.Builtin); ok && bi.Name() == "len" {
@@ -982,10 +996,13 @@ func lenIsZero(l engine.Lit) (ssa.Value, bool) {
 // then stays registered for good.
 func checkHostIndexLowered(c *engine.Ctx, rule string) {
 	p := c.P
-	exist := fn(c, "pkg/util/vhost.Routers.exist")
-	idxF := field(c, "pkg/util/vhost", "Routers", "indexByDomain")
 	existObj := p.MethodObj("pkg/util/vhost", "Routers", "exist")
-	if exist == nil || idxF == nil {
+	var exist *ssa.Function
+	if existObj != nil {
+		exist = p.FuncOf(existObj)
+	}
+	idxF := field(c, "pkg/util/vhost", "Routers", "indexByDomain")
+	if idxF == nil {
 		return
 	}
 	c.Rule(rule, "every access to the host index, and the duplicate test, use strings.ToLower of the host parameter")
@@ -1054,7 +1071,7 @@ func checkHostIndexLowered(c *engine.Ctx, rule string) {
 				if b, ok := x.Common().Value.(*ssa.Builtin); ok && b.Name() == "delete" {
 					m, idx, what = x.Common().Args[0], x.Common().Args[1], "delete"
 				}
-				if engine.IsCallTo(in, existObj) && f != exist {
+				if existObj != nil && engine.IsCallTo(in, existObj) && f != exist {
 					n++
 					c.Check(loweredAt(f, engine.CallArgs(x)[1], 0), p.FuncName(f)+">exist-arg", in.Pos(), 1, nil,
 						"the duplicate test is made with the lower-cased host (otherwise App.Example.com and app.example.com both register and collide in the index)")
@@ -1070,6 +1087,45 @@ func checkHostIndexLowered(c *engine.Ctx, rule string) {
 			c.Check(loweredAt(f, idx, 0), fmt.Sprintf("%s>%s#%d", p.FuncName(f), what, n), in.Pos(), 1, nil, "host index %s uses the lower-cased host", what)
 		})
 	}
-	c.Floor(n, 5)
+	c.Floor(n, 4)
 
+}
+
+// routerDuplicateVerdict abstracts "the duplicate test of Routers.Add": with the helper Routers.exist it is that call's
+// result; when the test is made in place (one lookup serves the conflict scan and the insertion) it is the scan's
+// comparison of an element's location with the location to register. known=false when neither form is present.
+func routerDuplicateVerdict(c *engine.Ctx, add *ssa.Function) func(st *engine.PathState) (dup, known bool) {
+	p := c.P
+	existObj := p.MethodObj("pkg/util/vhost", "Routers", "exist")
+	locF := p.Field("pkg/util/vhost", "Router", "location")
+	inPlace := false
+	isLocCmp := func(x, y ssa.Value) bool {
+		lf, _ := engine.LoadedField(x)
+		if lf == nil || lf != locF {
+			return false
+		}
+		pr, ok := engine.Unwrap(y).(*ssa.Parameter)
+		return ok && pr.Parent() == add
+	}
+	if existObj == nil || len(engine.CallsTo(add, existObj)) == 0 {
+		engine.ForEachInstr(add, func(in ssa.Instruction) {
+			if bo, ok := in.(*ssa.BinOp); ok && bo.Op == token.EQL && (isLocCmp(bo.X, bo.Y) || isLocCmp(bo.Y, bo.X)) {
+				inPlace = true
+			}
+		})
+	}
+	return func(st *engine.PathState) (bool, bool) {
+		if existObj != nil && len(engine.CallsTo(add, existObj)) > 0 {
+			return st.Truth(extractOf(existObj, 1))
+		}
+		if !inPlace {
+			return false, false
+		}
+		for _, l := range st.Lits {
+			if l.Op == token.EQL && l.Val && (isLocCmp(l.X, l.Y) || isLocCmp(l.Y, l.X)) {
+				return true, true
+			}
+		}
+		return false, true
+	}
 }
